@@ -340,7 +340,7 @@ class LocalModelDirectoryDatabaseSnapshot(ModelSnapshot):
         if path.is_file() and stat(path).st_size > 0:
             return path
         else:
-            raise FileNotFoundError(f"Cannot retrieve {filename} for {self.name}")
+            raise FileNotFoundError(f"Cannot retrieve {filename} for {self.key}")
 
     def retrieve_model(self):
         path = self._find_full_model_path()
